@@ -123,15 +123,16 @@ __CPROVER_ensures(__CPROVER_return_value == TRUE || __CPROVER_return_value == FA
 /* find: NULL iff the pointer is not recorded (seen at vg_r); otherwise the FIRST record with
  * that pointer, whose index is left in vg_fidx.
  * pointer_in_range_dfcc: checked as a range fact when this contract is enforced; at a replaced call it
- * makes the returned pointer "table + offset" for cbmc's points-to analysis (a plain nondet pointer
- * constrained by == sends the callers' writes through it to every object: 500 MB formulas) */
+ * makes the returned pointer "&table[vg_fidx] + 0" for cbmc's points-to analysis (a plain nondet pointer
+ * constrained by == sends the callers' writes through it to every object: 500 MB formulas; a range
+ * over the whole table makes every store byte-granular: 250 s / 7.5 GB) */
 spifmem_ptr_t *memrec_find_var(spifmem_memrec_t *memrec, const void *ptr)
 __CPROVER_requires(MEMREC_PRE(memrec))
 __CPROVER_assigns(vg_fidx)
 __CPROVER_ensures(__CPROVER_return_value != NULL || ptr == NULL || MEMREC_ABSENT_AT(memrec, ptr, vg_r))
 __CPROVER_ensures(__CPROVER_return_value == NULL ||
                   (ptr != NULL && vg_fidx < memrec->cnt && memrec->ptrs != NULL &&
-                   __CPROVER_pointer_in_range_dfcc(memrec->ptrs, __CPROVER_return_value, memrec->ptrs + memrec->cnt) &&
+                   __CPROVER_pointer_in_range_dfcc(memrec->ptrs + vg_fidx, __CPROVER_return_value, memrec->ptrs + vg_fidx) &&
                    __CPROVER_return_value == memrec->ptrs + vg_fidx &&
                    memrec->ptrs[vg_fidx].ptr == ptr && (!(vg_r < vg_fidx) || memrec->ptrs[vg_r].ptr != ptr)))
 ;
